@@ -5,6 +5,7 @@ import Gofasta.Driver.C06
 import Gofasta.Driver.C10
 import Gofasta.Driver.Var
 import Gofasta.Driver.Sam
+import Gofasta.Driver.SamVar
 namespace Gofasta.Driver
 
 def dispatch (c : Case) : Verdict :=
@@ -19,6 +20,7 @@ def dispatch (c : Case) : Verdict :=
   | "REL" => runRel c
   | "TOMA" => runToma c
   | "TOPA" => runTopa c
+  | "SAMVAR" => runSamVar c
   | _ => { agree := false, spec := "na", model := "unknown-property" }
 
 end Gofasta.Driver
